@@ -1368,7 +1368,16 @@ class Executor:
             # failure conditions matter (reading an unbound local, a missing
             # key); what cannot be modelled (formatting helpers) is skipped
             for elt in node.value.elts:
+                local = set()        # names bound inside the argument itself
                 for sub in ast.walk(elt):
+                    if isinstance(sub, ast.comprehension):
+                        for t in ast.walk(sub.target):
+                            if isinstance(t, ast.Name): local.add(t.id)
+                    elif isinstance(sub, ast.Lambda):
+                        for a_ in sub.args.args: local.add(a_.arg)
+                for sub in ast.walk(elt):
+                    if isinstance(sub, ast.Name) and sub.id in local:
+                        continue
                     if isinstance(sub, ast.Name) and isinstance(sub.ctx, ast.Load) \
                        and sub.id in st.bound:
                         self.get_var(st, sub.id)
